@@ -750,19 +750,21 @@ def replay(ctx, rep):
     if head is None:
         print("library:", line)
         return
+    m = ctx.run_lines(model, [head])[0]
+    if head.startswith("BOX"):
+        print("library:", res)
+        for o in orc:
+            print("oracle :", o)
+        print("model  :", m)
+        return
     lf = fields_of(res)
     for f, name in FIELDS:
         print("library %-8s: %s" % (name, show(lf.get(f))))
     if "R" in lf:
         print("library sbml round trip:", "eq" if lf["R"] == "1" else show(lf["R"][2:]) if lf["R"].startswith("0:") else lf["R"])
-    if head.startswith("BOX"):
-        print("library:", res)
     for o in orc:
         print("oracle :", o)
-    m = ctx.run_lines(model, [head])[0]
     mf = fields_of(m.partition("\t#G:")[0])
     for f, name in FIELDS:
         if f in mf:
             print("model   %-8s: %s" % (name, show(mf.get(f))))
-    if head.startswith("BOX"):
-        print("model  :", m)
